@@ -210,6 +210,13 @@ def directed(rng, sch0):
             ("cmp", call("echo_b", ("al", ("cmp", b, inl_b))), "istrue"),
             ("cmp", call("echo_b", ("al", ("not", ("cmp", b, inl_b)))), "istrue"),
             ("cmp", call("echo_b", ("al", ("paren", ("comb", "or", ("cmp", b, s_a), ("cmp", fld("num"), inl_i))))), "istrue"),
+            # a comparison nested in the left-hand side of a list comparison (and the other way round)
+            ("cmp", call("tagb", ("al", ("cmp", b, s_a))), inl_b),
+            ("cmp", call("tagb", ("al", ("not", ("cmp", b, s_a)))), inl_b),
+            ("cmp", call("tagb", ("al", ("paren", ("comb", "and", ("cmp", fld("tt"), "istrue"), ("cmp", b, s_a))))), inl_b),
+            ("cmp", call("tagb", ("al", ("cmp", b, inl_b))), s_a),
+            ("cmp", call("len", ai(call("tagb", ("al", ("cmp", b, ("contains", b"a")))))), inl_i),
+            ("cmp", call("tagb", ("al", ("cmp", call("tagb", ("al", ("cmp", b, s_a))), inl_b))), s_a),
         ]
     # map-each and quantifiers
     vec_srcs = [fld("strs", "each"), fld("words", "each", "each"), fld("words", ("a", 1), "each"), fld("hdr", "each"),
